@@ -775,6 +775,22 @@ func TestVerifC06(t *testing.T) {
 		}
 	}
 
+	// ---- misdirected request relayed live: A requests X, a relay without any account key hands A's frames to another
+	// honest responder R and answers the last slot itself (the acknowledge is not authenticated). R must not
+	// complete: A never addressed it.
+	for _, tc := range []struct{ target, responder *party }{{w.B, w.M}, {w.M, w.B}, {w.B, w.A}} {
+		for _, ack := range []string{"true", "false", "missing", "forward"} {
+			k, respErr, pan := relayRun(w.A, tc.target, tc.responder, ack)
+			rep.Eval(fmt.Sprintf("relay/ack=%s/responder-completes=%v", ack, respErr == nil))
+			if pan != nil {
+				rep.Violation("C06/panic", fmt.Sprintf("relay run: %v", pan), nil)
+			}
+			if respErr == nil && k != nil {
+				rep.Violation("C06/responder-completes-with-misdirected-request", fmt.Sprintf("A requests %s; a relay hands its frames to responder %s and acknowledges (%s) itself: %s completes and reports %s", tc.target.name, tc.responder.name, ack, tc.responder.name, pubName(w, k)), map[string]string{"target": tc.target.name, "responder": tc.responder.name, "ack": ack})
+			}
+		}
+	}
+
 	// ---- man in the middle: every single-bit flip and every truncation of each of the five frames
 	base := honestRun(w.A, w.B, nil)
 	var flips int64
@@ -915,4 +931,80 @@ func TestVerifC06(t *testing.T) {
 	}
 	wg.Wait()
 	rep.Set("harvest_combinations", int64(len(combos)))
+}
+
+// relayRun: honest requester a (targeting `target`) and honest responder r are connected through a relay that
+// forwards hello, hello, authenticate, and then handles the accept/acknowledge slots itself:
+// ack "forward" = plain forwarding (a decides), otherwise the relay drops r's accept and sends the acknowledge.
+func relayRun(a, target, r *party, ack string) (p2pcrypto.PubKey, error, interface{}) {
+	toR := make(chan []byte, 8)
+	toA := make(chan []byte, 8)
+	var closeToR sync.Once
+	endToR := func() { closeToR.Do(func() { close(toR) }) }
+	var panicked interface{}
+	type resR struct {
+		k   p2pcrypto.PubKey
+		err error
+		p   interface{}
+	}
+	doneR := make(chan resR, 1)
+	nFromR := 0
+	go func() {
+		var res resR
+		defer func() {
+			if x := recover(); x != nil {
+				res.p = x
+			}
+			doneR <- res
+		}()
+		sio := &chanIO{in: toR, out: make(chan []byte, 8), rec: func(f []byte) []byte { return f }}
+		// frames written by r go through the relay
+		out := sio.out
+		go func() {
+			for f := range out {
+				nFromR++
+				if nFromR == 2 && ack != "forward" {
+					// r's accept: dropped; the relay acknowledges in a's place
+					switch ack {
+					case "true":
+						toR <- frameAck(true)
+					case "false":
+						toR <- frameAck(false)
+					case "missing":
+						endToR()
+					}
+					continue
+				}
+				toA <- f
+			}
+		}()
+		res.k, res.err = ResponseUsingReaderWriter(context.Background(), zap.NewNop(), sio, sio, r.sk)
+		close(out)
+	}()
+	doneA := make(chan struct{})
+	go func() {
+		defer close(doneA)
+		defer func() {
+			if x := recover(); x != nil {
+				panicked = x
+			}
+		}()
+		sio := &chanIO{in: toA, out: toR, rec: func(f []byte) []byte { return f }}
+		_ = RequestUsingReaderWriter(context.Background(), zap.NewNop(), sio, sio, a.sk, target.sk.GetPublic())
+		// the requester is gone: the responder sees the end of the stream
+		if ack == "forward" {
+			endToR()
+		}
+	}()
+	res := <-doneR
+	// a may still wait for an accept that never comes: release it
+	func() {
+		defer func() { _ = recover() }()
+		close(toA)
+	}()
+	<-doneA
+	if res.p != nil {
+		panicked = res.p
+	}
+	return res.k, res.err, panicked
 }
